@@ -50,6 +50,21 @@ META = {
                 text="Seeded exploration of programs with discarded, failed and refused transactions and misuse calls, followed by "
                      "rotations, flushes, compactions and restarts.",
                 note=WHOLE),
+    "C09": dict(engine="comp", design_ref="7 C09",
+                technique="simulation-hosted level-manager driver; before/after brute-force comparison around every compaction",
+                text="Generated table layouts and watermarks, real flush/compaction/recover code; answers for all keys x all permitted "
+                     "timestamps of each case are compared exhaustively; layouts, configurations and watermarks are sampled.",
+                note=WHOLE + "; Get-level (not entry-level) equality: a dropped tombstone that shadows nothing is not an error; the table decoder is trusted (C11 checks it)"),
+    "C10": dict(engine="comp", design_ref="7 C10",
+                technique="simulation-hosted level-manager driver; real lookup vs brute force over decoded tables, exhaustive per case",
+                text="Exhaustive over (key, timestamp) for the small universe of each generated layout, sampled over layouts, block sizes and "
+                     "rebuilt-vs-built handles. The schedule dimension is degenerate for this property (DESIGN 7 C10).",
+                note=WHOLE + "; the table decoder is trusted (C11 checks it)"),
+    "C11": dict(engine="comp", design_ref="7 C11, 3.6",
+                technique="deterministic simulation with an adversarial buffer pool as scheduled fault; round-trip and byte-stability oracles",
+                text="The pool plays the concurrent goroutine: reuse-after-Put is made to happen at the earliest legal moment, deterministically; "
+                     "several encoder tasks interleave under seeded schedules.",
+                note=WHOLE + "; an encoder may refuse (error) a key longer than its 16-bit length field; accepting and truncating is a violation"),
     "C12": dict(engine="engine", design_ref="7 C12, 3.7",
                 technique="deterministic simulation built with -race: race detector on serialised seeded schedules with an invisible hand-off; panic capture; C05-C07 oracles",
                 text="The detector flags only what a schedule executes; here schedules are searched and every report comes with a seed that "
